@@ -265,6 +265,46 @@ fn nested(open: &[u8], leaf: &[u8], close: &[u8], d: usize, pre: &[u8], post: &[
     v
 }
 
+/// Include files on disk for the configuration target (seeded C03-K): self-includes, mutual cycles with fan-out, a chain
+/// deeper than the nesting limit, a wide fan of includes of a leaf. They live beside the harness binary (parent and
+/// workers regenerate the same case list and therefore the same files; writes are atomic and idempotent).
+fn conf_include_cases(raw: &mut Vec<(String, Vec<u8>)>) {
+    let dir = std::env::current_exe().ok().and_then(|p| p.parent().map(|d| d.join("c03inc"))).unwrap_or_else(|| std::path::PathBuf::from("c03inc"));
+    let _ = std::fs::create_dir_all(&dir);
+    let d = dir.to_string_lossy().to_string();
+    let put = |name: &str, content: String| {
+        let path = dir.join(name);
+        if std::fs::read(&path).ok().as_deref() != Some(content.as_bytes()) {
+            let tmp = dir.join(format!(".{}.{}", name, std::process::id()));
+            if std::fs::write(&tmp, content.as_bytes()).is_ok() {
+                let _ = std::fs::rename(&tmp, &path);
+            }
+        }
+    };
+    let inc = |name: &str| format!("include \"{}/{}\"\n", d, name);
+    put("self1.conf", inc("self1.conf"));
+    put("self2.conf", format!("{}{}", inc("self2.conf"), inc("self2.conf")));
+    put("self2k.conf", format!("port 80\n{}threads 2\n{}timeout 5\n", inc("self2k.conf"), inc("self2k.conf")));
+    put("self3.conf", format!("{}{}{}", inc("self3.conf"), inc("self3.conf"), inc("self3.conf")));
+    put("a.conf", format!("{}{}", inc("b.conf"), inc("b.conf")));
+    put("b.conf", format!("{}{}", inc("a.conf"), inc("a.conf")));
+    put("p.conf", format!("{}{}", inc("q.conf"), inc("leaf.conf")));
+    put("q.conf", format!("{}{}", inc("leaf.conf"), inc("p.conf")));
+    put("leaf.conf", "threads 3\n".to_string());
+    put("sect.conf", format!("cache {{\n  size 1K\n  {}}}\n", inc("sect.conf").trim_end()));
+    for i in 0..80 {
+        put(&format!("chain{}.conf", i), if i < 79 { inc(&format!("chain{}.conf", i + 1)) } else { "threads 3\n".to_string() });
+    }
+    put("wide.conf", inc("leaf.conf").repeat(500));
+    for name in ["self1", "self2", "self2k", "self3", "a", "p", "sect", "chain0", "chain20", "wide", "leaf", "missing"] {
+        let line = inc(&format!("{}.conf", name));
+        raw.push((format!("conf/include-top({})", name), line.clone().into_bytes()));
+        raw.push((format!("conf/include-in-server({})", name), format!("server {{\n  {}}}\n", line).into_bytes()));
+        raw.push((format!("conf/include-in-host({})", name), format!("server {{\n  host h {{\n    {}  }}\n}}\n", line).into_bytes()));
+        raw.push((format!("conf/include-twice({})", name), format!("server {{\n  {}  {}}}\n", line, line).into_bytes()));
+    }
+}
+
 pub fn cases(target: &str, thorough: bool, seed: u64) -> Vec<Case> {
     let mut raw: Vec<(String, Vec<u8>)> = Vec::new();
     let mut rng = Rng::derive(seed, fnv(target.as_bytes()));
@@ -452,6 +492,7 @@ pub fn cases(target: &str, thorough: bool, seed: u64) -> Vec<Case> {
                     raw.push((format!("conf/tokens(ctx{})", ctx.len()), b));
                 });
             }
+            conf_include_cases(&mut raw);
             for (i, s) in conf_seeds().iter().enumerate() {
                 prefixes(s, &format!("conf/seed{}", i), &mut raw);
                 text_mutants(s, &format!("conf/seed{}", i), false, &mut raw);
